@@ -1,11 +1,10 @@
 \* The repaired design: CR in character data is written as &#13;.
-\* All strings of <= 5 symbols over the 13-class alphabet at depth 0, both
-\* modes, plus all strings of <= 4 symbols at embedding depth 0..3
-\* (see XmlTextMCFixedDeep.cfg).
+\* All strings of <= 4 symbols over the 13-class alphabet, both modes, depth 0
+\* (thorough tier: <= 5, XmlTextMCFixedBig.cfg; embedded depths: *Deep*.cfg).
 SPECIFICATION Spec
 CONSTANTS
   Alphabet <- Cls
-  MaxLen = 5
+  MaxLen = 4
   Depths = {0}
   Modes = {"entity", "cdata"}
   V <- CrFixed
